@@ -69,4 +69,38 @@ def absArr (st : State) (a : Nat) : List (Option Nat) :=
   | some s => (List.range (st.arrs a).size).map fun i => st.mem (.heap s i 1)
   | none => []
 
+-- C05 --------------------------------------------------------------------------------------------------
+
+/-- the event constructs or destroys an object in the slot of the item (an assignment does not:
+    it overwrites the value of the same object) -/
+def Ev.recycles (it : Item) : Ev → Prop
+  | .ctor (.heap b i _) _ => b = it.b ∧ i = it.i
+  | .dtor (.heap b i _) => b = it.b ∧ i = it.i
+  | _ => False
+
+/-- the element in slot `it` of container c stayed what and where it was: it is still an item (of c', which is c
+    except after a swap), no object was constructed or destroyed in its slot, its key is unchanged -/
+def Kept (st st' : State) (evs : List Ev) (it : Item) (c c' : Var) : Prop :=
+  it ∈ (st'.nodes c').items ∧ c'.k = c.k ∧ (∀ e, e ∈ evs → ¬ e.recycles it) ∧ st'.mem (it.loc 0) = st.mem (it.loc 0)
+
+/-- every member object of the element was destroyed -/
+def Destroyed (evs : List Ev) (it : Item) (c : Var) : Prop :=
+  ∀ f, f ∈ c.k.fields → Ev.dtor (it.loc f) ∈ evs
+
+/-- the elements a micro step is meant to remove from container c -/
+def Micro.removes (st : State) : Micro → Var → Item → Prop
+  | .remove c0 j, c, it => c = c0 ∧ (st.nodes c0).items[j]? = some it
+  | .removeKey c0 k, c, it =>
+    c = c0 ∧ ∃ kp j, k.payload st = some kp ∧ findField st 0 kp (st.nodes c0).items = some j ∧ (st.nodes c0).items[j]? = some it
+  | .removeVal c0 v, c, it =>
+    c = c0 ∧ ∃ vp j, v.payload st = some vp ∧ findField st 1 vp (st.nodes c0).items = some j ∧ (st.nodes c0).items[j]? = some it
+  | .clear c0, c, _ => c = c0
+  | .destroy c0, c, _ => c = c0
+  | _, _, _ => False
+
+/-- the container an element of c belongs to after the step (swap exchanges the two variables) -/
+def Micro.moves : Micro → Var → Var
+  | .swap c d, x => if x = c then d else if x = d then c else x
+  | _, x => x
+
 end Nstd.Life
